@@ -101,7 +101,7 @@ let out_of_tokens (ts : string list) : out option =
   | ["SU"] -> Some (OSubRes SubAuth)
   | ["SE"; e] -> Some (OSubRes (SubExpired (n e)))
   | ["B"] -> Some OBlockRes
-  | "X" :: _ -> Some (OAbort S_api_expired_unwrap)
+  | "X" :: _ -> Some (OAbort S_r_get_height_unwrap)   (* a panic: the site is not compared *)
   | _ -> None
 
 type iobs = { users : int list list; apps : int list list; trks : int list list; mem : int list list }
